@@ -22,6 +22,10 @@
 (*                                and NumpyFloatToFixConverter (arrays)    *)
 (*   <<"inv_fix", V0, W, X, V>>   W = the word passed, X = fix_to_float    *)
 (*                                (fmt)(W), V = float_to_fix(fmt)(X)       *)
+(*   <<"npshape", kind, given, got>>     an array converter ("to_fix" /    *)
+(*                                       "to_float") was given an array of *)
+(*                                       shape `given` without elements    *)
+(*                                       and returned one of shape `got`   *)
 (*   <<"raise", api, argument, class>>   the call raised                   *)
 (*   <<"ok">>                            closes the trace                  *)
 (* State st: number of events seen, the last scalar events ("fp",          *)
@@ -86,6 +90,10 @@ Checks(e) ==
          WordEncodesValue       |-> IsWordOf(w, v, Fmt.n),
          UnsignedVariantsModulo |-> Follows(st.inv, 2, e[2]) =>
                                        (DblEq(x, DblOf(st.inv[3])) /\ IsWordOf(b, FxOf(st.inv[4]), Fmt.n))]
+    [] e[1] = "npshape" ->
+        \* "arrays of any shape", also those without elements: what an array converter returns has the shape of what
+        \* it was given (shapes travel as strings, "2x0x2"; a call that raised as "raised <class>")
+        [ShapePreserved |-> e[2] \in {"to_fix", "to_float"} /\ e[4] = e[3]]
     [] e[1] = "raise" ->
         \* inside the domain every call returns a value
         [NoException |-> e[2] \in {"fp", "np", "fix"} /\ ~Finite(DblOf(e[3]), Fmt.f)]
